@@ -77,3 +77,46 @@ pub mod option {
 pub mod result {
     pub struct Result<T, E>(pub T, pub E);
 }
+
+/// user modules whose LONGER paths end like the paths the name rewriter shortens (`...::alloc::vec::Vec`,
+/// `...::core::option::Option`, `...::std::string::String`): only the exact std path may be shortened
+pub mod deep {
+    pub mod alloc {
+        pub mod vec {
+            pub struct Vec<T>(pub T);
+        }
+        pub mod string {
+            pub struct String(pub u8);
+        }
+        pub mod boxed {
+            pub struct Box<T>(pub T);
+        }
+    }
+    pub mod core {
+        pub mod option {
+            pub struct Option<T>(pub T);
+        }
+        pub mod result {
+            pub struct Result<T, E>(pub T, pub E);
+        }
+    }
+    pub mod std {
+        pub mod vec {
+            pub struct Vec<T>(pub T);
+        }
+        pub mod string {
+            pub struct String(pub u16);
+        }
+    }
+}
+
+/// two different types with the same last path segment and different layouts (8 / 8 and 4 / 4): an assertion table
+/// keyed by the unqualified type name would keep one entry for both
+pub mod pa {
+    #[derive(Clone, Copy)]
+    pub struct Same(pub u64);
+}
+pub mod pb {
+    #[derive(Clone, Copy)]
+    pub struct Same(pub u32);
+}
